@@ -98,6 +98,23 @@ Proof. split; [apply conf_ext_refl|reflexivity]. Qed.
 Lemma conf_grows_trans a b c : conf_grows a b -> conf_grows b c -> conf_grows a c.
 Proof. intros [E1 N1] [E2 N2]. split; [eapply conf_ext_trans; eassumption|congruence]. Qed.
 
+Lemma cc_new_conf w2 c K w' p cf1 :
+  conf_step cf1 (conf_of w2 c) ->
+  cc_new true w2 c false K = Ok (w', p) -> conf_grows cf1 (conf_of w' c).
+Proof.
+  intros St. unfold cc_new. destruct (alloc true w2) as [[w4 q]|] eqn:Ea; [|discriminate].
+  destruct (alloc_ok _ _ _ _ Ea) as [_ E4].
+  intros H. assert (w' = cc_store (put_pal w4 q (new_pal w2 c false K)) c false K q) as -> by congruence.
+  clear H. subst w4. unfold cc_store. cbn iota. rewrite conf_of_put_eq.
+  change (conf_of (put_pal (set_oracle w2 (tl (w_oracle w2))) q (new_pal w2 c false K)) c) with (conf_of w2 c).
+  split; [|cbn [cache_put c_nocolor]; apply St].
+  eapply conf_ext_trans; [apply (conf_step_ext _ _ St)|].
+  split; cbn [cache_put c_smap c_reg]; [exists []; symmetry; apply app_nil_r|apply incl_refl].
+Qed.
+
+Lemma register_conf_step w c K : w_synced w = [] -> conf_step (conf_of w c) (conf_of (register w c K) c).
+Proof. intros Hs. rewrite register_eq by exact Hs. rewrite conf_of_put_eq. apply register_raw_step. Qed.
+
 Lemma class_call_conf w copt K w' p :
   w_synced w = [] -> class_call true w copt false K false = Ok (w', p) ->
   conf_grows (conf_of (fst (cc_pre w copt)) (snd (cc_pre w copt))) (conf_of w' (snd (cc_pre w copt))).
@@ -106,18 +123,8 @@ Proof.
   assert (w_synced (fst (cc_pre w copt)) = []) as Hs1 by (rewrite (moves_synced true fts _ _ (moves_cc_pre true fts w copt)); exact Hs).
   remember (fst (cc_pre w copt)) as w1 eqn:E1. remember (snd (cc_pre w copt)) as c eqn:Ec. clear E1 Ec.
   destruct (zfind K (c_cache (conf_of w1 c))) as [q|].
-  - intros [= <- _]. apply conf_grows_refl.
-  - assert (conf_of (register w1 c K) c = fst (register_raw reg_fuel (conf_of w1 c) K)) as Er.
-    { rewrite register_eq by exact Hs1. apply conf_of_put_eq. }
-    pose proof (register_raw_step reg_fuel (conf_of w1 c) K) as St. rewrite <- Er in St.
-    remember (register w1 c K) as w2 eqn:E2. clear E2 Er.
-    unfold cc_new. destruct (alloc true w2) as [[w4 q]|] eqn:Ea; [|discriminate].
-    destruct (alloc_ok _ _ _ _ Ea) as [_ ->]. intros [= <- _]. unfold cc_store. cbn iota.
-    rewrite conf_of_put_eq.
-    change (conf_of (put_pal (set_oracle w2 _) q _) c) with (conf_of w2 c).
-    split; [|cbn [cache_put c_nocolor]; apply St].
-    eapply conf_ext_trans; [apply (conf_step_ext _ _ St)|].
-    split; cbn [cache_put c_smap c_reg]; [exists []; symmetry; apply app_nil_r|apply incl_refl].
+  - intros H. assert (w' = w1) as -> by congruence. apply conf_grows_refl.
+  - intros H. exact (cc_new_conf _ _ _ _ _ _ (register_conf_step w1 c K Hs1) H).
 Qed.
 
 (* ---- the invariant of a coloured rendering in progress ---- *)
@@ -133,7 +140,7 @@ Proof.
   intros [Hi Hh] (G & Pc & Pn & S) E.
   pose proof (moves_get_sub true fts _ _ _ _ _ (proj1 Hi) Hh E) as (_ & Gr & _).
   revert E. unfold get_sub. destruct (zfind K (p_subs (pal_of w cp))) as [q0|] eqn:Ez.
-  - intros [= <- <-]. repeat split; assumption.
+  - intros [= <- <-]. exact (conj G (conj Pc (conj Pn S))).
   - rewrite Pc, Pn.
     destruct (class_call true w (Some c) false K false) as [[w1 q1]|] eqn:Ec; [|discriminate]. cbn [bind].
     intros [= <- <-].
@@ -144,13 +151,13 @@ Proof.
     { destruct L1 as (_ & _ & L). apply L. unfold hpinned. apply in_or_app. left. exact Hh. }
     assert (conf_grows cf0 (conf_of w1 c)) as G2 by (eapply conf_grows_trans; eassumption).
     split; [exact G2|]. rewrite pal_of_put_eq. unfold add_sub. cbn [p_conf p_nocolor p_subs].
-    rewrite Ecp. split; [exact Pc|]. split; [exact Pn|].
+    split; [rewrite Ecp; exact Pc|]. split; [rewrite Ecp; exact Pn|].
     intros K' q' Hz. cbn [zfind] in Hz. destruct (Z.eqb_spec K K') as [<-|Hne].
     + injection Hz as <-. exists (conf_of w1 c). split; [exact G2|].
       destruct (Z.eq_dec q1 cp) as [->|Hq].
       * rewrite pal_of_put_eq. cbn [p_colors]. exact Cq.
       * rewrite pal_of_put_ne by exact Hq. exact Cq.
-    + destruct (S _ _ Hz) as (cf' & Gc & Col). exists cf'. split; [exact Gc|]. rewrite <- Col.
+    + rewrite Ecp in Hz. destruct (S _ _ Hz) as (cf' & Gc & Col). exists cf'. split; [exact Gc|]. rewrite <- Col.
       destruct Gr as (_ & _ & _ & Q). exact (Q cp K' q' Hh Hz).
 Qed.
 
@@ -212,6 +219,101 @@ Proof.
     destruct (zfind K (p_subs (pal_of w2 cp))) as [q|] eqn:Ez; [|congruence].
     destruct (S2 _ _ Ez) as (cf' & Gc & Col). exists cf'. split; [|exact Col].
     fold (conf_in_force (set_oracle w ids) copt) in Gc. rewrite conf_in_force_oracle in Gc. exact Gc.
+Qed.
+
+(* ---- warm configurations: every syntax id the class uses is present and
+   resolved; then later registrations cannot change the class's colours ---- *)
+Definition warm_cls (cf : conf) (K : cls) : bool :=
+  forallb (fun as_ => zhas (snd as_) (c_smap cf) &&
+                      match resolve (S (length (c_smap cf))) (c_smap cf) (snd as_) with Some _ => true | None => false end)
+          (k_local (cinfo K)).
+
+Lemma resolve_S f : forall m s st, resolve f m s = Some st -> resolve (S f) m s = Some st.
+Proof.
+  induction f as [|f IH]; intros m s st; [discriminate|].
+  intros H. cbn [resolve] in H. change (resolve (S (S f)) m s) with
+    (match zfind s m with
+     | None => None
+     | Some d => match d_parent d with
+                 | None => Some (mkStyle (match d_fg d with FCol n => Some n | _ => None end) (d_bold d))
+                 | Some p => match resolve (S f) m p with
+                             | None => None
+                             | Some ps => Some (mkStyle (match d_fg d with FInherit => s_fg ps | FDash => None | FCol n => Some n end)
+                                                        (match d_bold d with Some b => Some b | None => s_bold ps end))
+                             end
+                 end
+     end).
+  destruct (zfind s m) as [d|]; [|discriminate]. destruct (d_parent d) as [p|]; [|exact H].
+  destruct (resolve f m p) as [ps|] eqn:E; [|discriminate]. rewrite (IH _ _ _ E). exact H.
+Qed.
+
+Lemma resolve_plus k : forall f m s st, resolve f m s = Some st -> resolve (f + k) m s = Some st.
+Proof.
+  induction k as [|k IH]; intros f m s st H; [rewrite Nat.add_0_r; exact H|].
+  rewrite Nat.add_succ_r. apply resolve_S. apply IH. exact H.
+Qed.
+
+Lemma resolve_app f : forall m x s st, resolve f m s = Some st -> resolve f (m ++ x) s = Some st.
+Proof.
+  induction f as [|f IH]; intros m x s st; [discriminate|]. cbn [resolve].
+  destruct (zfind s m) as [d|] eqn:E; [|discriminate]. rewrite (zfind_app_some _ _ x _ E).
+  destruct (d_parent d) as [p|]; [|auto].
+  destruct (resolve f m p) as [ps|] eqn:Ep; [|discriminate]. rewrite (IH _ x _ _ Ep). auto.
+Qed.
+
+Lemma get_color_ext nc m x s :
+  zhas s m = true -> resolve (S (length m)) m s <> None -> get_color nc (m ++ x) s = get_color nc m s.
+Proof.
+  intros Hh Hr. unfold get_color. rewrite Hh, (zhas_app _ _ x Hh). destruct nc; [reflexivity|].
+  destruct (resolve (S (length m)) m s) as [st|] eqn:E; [|congruence].
+  rewrite app_length. change (S (length m + length x)) with (S (length m) + length x)%nat.
+  rewrite (resolve_plus (length x) _ _ _ _ (resolve_app _ _ x _ _ E)). reflexivity.
+Qed.
+
+Lemma local_colors_warm cf cf' K nc :
+  conf_grows cf cf' -> warm_cls cf K = true -> local_colors cf' K nc = local_colors cf K nc.
+Proof.
+  intros [[(x & X) _] N] Hw. unfold local_colors. apply map_ext_in. intros [a s] Hin. cbn [fst snd].
+  destruct nc; [reflexivity|]. f_equal. rewrite N, X.
+  unfold warm_cls in Hw. rewrite forallb_forall in Hw. specialize (Hw _ Hin). cbn [snd] in Hw.
+  apply andb_prop in Hw as [H1 H2]. apply get_color_ext; [exact H1|].
+  destruct (resolve (S (length (c_smap cf))) (c_smap cf) s); [discriminate|discriminate].
+Qed.
+
+Lemma top_colors_warm cf K : warm_cls cf K = true -> top_colors cf K = local_colors cf K false.
+Proof.
+  intros Hw. unfold top_colors. apply local_colors_warm; [|exact Hw].
+  destruct (register_raw_step reg_fuel cf K) as (N & E & _). split; [exact E|exact N].
+Qed.
+
+Lemma pure_line_ext top f g l :
+  (forall K, In K (line_subs l) -> f K = g K) -> pure_line fts top f l = pure_line fts top g l.
+Proof.
+  unfold pure_line. induction l as [|it l IH]; intros H; [reflexivity|]. cbn [flat_map]. f_equal.
+  - apply pure_item_ext. intros K HK. apply H. unfold line_subs. cbn [flat_map]. apply in_or_app. left. exact HK.
+  - apply IH. intros K HK. apply H. unfold line_subs. cbn [flat_map]. apply in_or_app. right. exact HK.
+Qed.
+
+Lemma pure_lines_ext top f g ls :
+  (forall K, In K (lines_subs ls) -> f K = g K) -> pure_lines fts top f ls = pure_lines fts top g ls.
+Proof.
+  unfold pure_lines. induction ls as [|l ls IH]; intros H; [reflexivity|]. cbn [map]. f_equal.
+  - apply pure_line_ext. intros K HK. apply H. unfold lines_subs. cbn [flat_map]. apply in_or_app. left. exact HK.
+  - apply IH. intros K HK. apply H. unfold lines_subs. cbn [flat_map]. apply in_or_app. right. exact HK.
+Qed.
+
+(* closed form for compound objects under a warm configuration *)
+Lemma render_colour_warm w obj copt mode ids w' outs :
+  inv fts w -> obj_ok obj ->
+  warm_cls (conf_in_force w copt) (o_cls obj) = true ->
+  (forall K, In K (lines_subs (o_lines obj)) -> warm_cls (conf_in_force w copt) K = true) ->
+  step true fts w (ORender obj copt false PNone mode ids) = Ok (w', outs) ->
+  outs = texts_of mode (pure_lines fts (local_colors (conf_in_force w copt) (o_cls obj) false)
+                                   (fun K => local_colors (conf_in_force w copt) K false) (o_lines obj)).
+Proof.
+  intros Hi Hobj Wt Ws E. destruct (render_colour_subs _ _ _ _ _ _ _ Hi Hobj E) as (subc & -> & Hsub).
+  f_equal. rewrite (top_colors_warm _ _ Wt). apply pure_lines_ext.
+  intros K HK. destruct (Hsub K HK) as (cf' & G & ->). apply local_colors_warm; [exact G|apply Ws; exact HK].
 Qed.
 
 End Sub.
